@@ -93,6 +93,9 @@ func (p *Prog) UnresolvedCalls(fn *ssa.Function) []ssa.CallInstruction {
 
 // globalFuncs maps each module package-level variable to the module functions stored into it (or into one of its
 // fields or elements) anywhere in the module, typically by a package initialiser.
+// GlobalFuncs is globalFuncs for other packages.
+func (p *Prog) GlobalFuncs() map[*ssa.Global][]*ssa.Function { return p.globalFuncs() }
+
 func (p *Prog) globalFuncs() map[*ssa.Global][]*ssa.Function {
 	if p.gfuncs != nil {
 		return p.gfuncs
@@ -117,6 +120,20 @@ func (p *Prog) globalFuncs() map[*ssa.Global][]*ssa.Function {
 					} else if ff, isF := v.X.(*ssa.Function); isF {
 						f = ff
 					}
+				}
+				if f != nil && f.Synthetic != "" {
+					// a method expression or method value wrapper: the method it forwards to
+					var target *ssa.Function
+					for _, bb := range f.Blocks {
+						for _, ii := range bb.Instrs {
+							if c, isC := ii.(ssa.CallInstruction); isC {
+								if cal := c.Common().StaticCallee(); cal != nil && p.InModule(cal) {
+									target = cal
+								}
+							}
+						}
+					}
+					f = target
 				}
 				if f == nil || !p.InModule(f) {
 					continue
